@@ -26,7 +26,7 @@ EXPLANATION = (
     'the minimum-distance disjunct. Not decided: border-point geometry, cluster layout distances, point processes. '
     'Dropped from DESIGN: "Rectangle corners follow pos" - after the containment fix the test agrees with the '
     'vertices for every pos, so demanding it would exceed what C19 states.'
-    ' General rules also applied here (see DESIGN 10.5): validate-before-commit (no `raise` reachable after the object was already changed in a public mutator); falsy-zero (Optional numeric parameters tested with `is None`, never by truthiness).')
+    ' General rules also applied here (see DESIGN 10.5): validate-before-commit (no `raise` reachable after the object was already changed in a public mutator); falsy-zero (Optional numeric parameters tested with `is None`, never by truthiness). C19.f also covers plain float parameters; C19.i: positions are combined affinely (no point + point).')
 
 PLACEMENT = {'_pos', '_rotation', '_radius'}
 EXEMPT = {('Circle', '_rotation'): 'a disc is invariant under rotation about its centre'}
@@ -470,6 +470,11 @@ class Box:
 
 
 MUTANTS = [
+    Mutant('ratio-zero-treated-as-unset', CE, 'CellBase._validate_ratio',
+           [('replace', 'if ratio == 1.0:', 'if not ratio or ratio == 1.0:')], r'C19\.f:CellBase\._validate_ratio:ratio'),
+    Mutant('wrap-around-adds-two-absolute-centres', CE, 'Cluster.create_wrap_around_cells',
+           [('regex', r'positions = Cluster\._calc_cell_positions\([^\n]*\)', 'positions = np.array([[c.pos] for c in self._cells])')],
+           r'C19\.i:Cluster\.create_wrap_around_cells:point\+point'),
     Mutant('rectangle-skips-back-rotation-mod-90', SH, 'Rectangle.is_point_inside_shape',
            [('replace', 'if self.rotation != 0:', 'if self.rotation % 90 != 0:')], r'C19\.h:Rectangle\.is_point_inside_shape'),
     Mutant('benign-rectangle-always-rotates-back', SH, 'Rectangle.is_point_inside_shape',
